@@ -8,7 +8,7 @@ From Coq.Strings Require Import Byte.
 From Peppi Require Import Base.Bytes Base.Outcome Base.Stream Layout.Syntax Gen.Funs Gen.Tables Layout.Sem Layout.Rows Layout.Shapes
   Layout.RowsTheory Model.Ubjson Model.Start Model.Parse Model.Reader Model.Writer Model.Recorder
   Gen.WriterSizes Gen.FrameWrite Gen.Splitter Proofs.TableFacts Proofs.ReadProof Proofs.WriteProof Proofs.Corollaries Proofs.WriterLayout
-  Proofs.FrameWriteLayout Proofs.SplitterLayout Proofs.Examples.
+  Gen.WriterRaw Gen.WriterSteps Proofs.FrameWriteLayout Proofs.SplitterLayout Proofs.WriterRawLayout Proofs.WriterStepsLayout Proofs.Examples.
 Import ListNotations.
 
 (* reader half, for EVERY well-formed replay: any version up to the maximum, any occupied ports, any frame
@@ -61,6 +61,12 @@ Proof. exact write_frame_from_source. Qed.
 Theorem C01_gecko_blocks_from_source : forall fuel pos c, gecko_blocks fuel pos c = gecko_blocks_tbl gecko_write_steps fuel pos c.
 Proof. exact gecko_blocks_from_source. Qed.
 
+(* the top-level sequence of the writer (version check, payload table, signature, declared raw length, table entries, Game Start,
+   gecko blocks, frames, Game End once or twice, metadata block, closing brace) is the step list regenerated from
+   src/io/slippi/ser.rs write() on this run: the writer model IS the interpreter of that list, errors and panics included *)
+Theorem C01_writer_from_source : forall g, slp_write g = slp_write_of_steps write_steps g.
+Proof. exact slp_write_from_source. Qed.
+
 (* non-vacuity: concrete well-formed replays in each framing regime (rollback, absent characters, items, gecko
    blocks, doubled / missing Game End, metadata / none) *)
 Theorem C01_nonvacuous :
@@ -79,3 +85,4 @@ Print Assumptions C01_payload_sizes_from_source.
 Print Assumptions C01_nonvacuous.
 Print Assumptions C01_frame_write_from_source.
 Print Assumptions C01_gecko_blocks_from_source.
+Print Assumptions C01_writer_from_source.
